@@ -7,11 +7,13 @@
    convention while the index is undefined).  The one-step theorems
    (C15_add_sample_step, C15_switch_label_step) expose the invariant.
    The *_partial theorems are the scalar recurrences the proof is built from.
-   GATE: C15_gate (kernel-abstract).  Still validated rather than proved: that
-   iCVIFuzzyART.fit issues exactly such a permitted sequence whose final data is
-   (X, labels_) - compared with the model on every run by RunICVI.ifcheck. *)
+   SECOND SENTENCE: C15_fit_tracks_the_batch_index - for the model of
+   iCVIFuzzyART.fit (online and offline, every kernel / mode / epsilon), whenever
+   the fit is defined the tracked value is the batch index of (X, labels_).
+   GATE: C15_gate (kernel-abstract).  The model of fit is tied to the
+   implementation on every run by RunICVI.ifcheck. *)
 From Coq Require Import List Bool Arith Reals.
-From ART Require Import Num NumR Vec Search Kernel BaseArt ICVI ICVI_R VecR ICVI_full ICVI_switch.
+From ART Require Import Num NumR Vec Search Kernel BaseArt ICVI ICVI_R VecR ICVI_full ICVI_switch ICVIFuzzy ICVI_fit.
 Import ListNotations.
 Open Scope R_scope.
 
@@ -88,12 +90,20 @@ Theorem C15_any_permitted_sequence_tracks_the_batch_index : forall (d : nat) (op
               @batch_ch RN D d = Some (h_crit s).
 Proof. exact icvi_tracks_batch_index. Qed.
 
+(* iCVIFuzzyART.fit (model ICVIFuzzy.icvi_fit): online mode adds each sample once, offline mode first puts every
+   sample in cluster 0 and then switches labels; either way the tracked value ends as the index of (X, labels_) *)
+Theorem C15_fit_tracks_the_batch_index : forall (K : Kernel RN) (offline : bool) (s : st (N:=RN)) (X : list (list R)) m eps s' h',
+  icvi_fit K offline s X m eps = Some (s', h') ->
+  @batch_ch RN (combine X (labels s')) (length (hd [] X)) = Some (h_crit h') /\ length (labels s') = length X.
+Proof. exact icvi_fit_tracks_batch_index. Qed.
+
 (* the gate: joining an existing cluster requires the validity test (strict improvement) to have passed *)
 Theorem C15_gate : forall (K : Kernel RN) (s : st (N:=RN)) x (improves : nat -> bool) m eps s' c vl,
   step_fit K s x (Some improves) m eps = Some (s', c, vl) -> (c < length (W s))%nat -> improves c = true.
 Proof. exact icvi_gate. Qed.
 Print Assumptions C15_adds_track_the_batch_index.
 Print Assumptions C15_any_permitted_sequence_tracks_the_batch_index.
+Print Assumptions C15_fit_tracks_the_batch_index.
 Print Assumptions C15_cp_add_partial.
 Print Assumptions C15_gate.
 
